@@ -1,0 +1,57 @@
+//! Verification hooks (feature `verif-hooks`). Inert unless armed; used only by /verif.
+
+use std::sync::Mutex;
+use std::sync::atomic::{AtomicI64, AtomicU64, Ordering};
+
+static SNAPSHOT_NOW: AtomicI64 = AtomicI64::new(0);
+static TICKS: AtomicU64 = AtomicU64::new(0);
+/// 0 = disarmed; k > 0 = panic when the k-th tick (1-based, counted from the last reset) fires.
+static DIE_AT: AtomicU64 = AtomicU64::new(0);
+static LABELS: Mutex<Option<Vec<String>>> = Mutex::new(None);
+
+/// Override the wall-clock second recorded by group snapshots (0 = use the real clock).
+pub fn set_snapshot_now(secs: i64) {
+    SNAPSHOT_NOW.store(secs, Ordering::SeqCst);
+}
+
+pub(crate) fn snapshot_now(real: i64) -> i64 {
+    match SNAPSHOT_NOW.load(Ordering::SeqCst) {
+        0 => real,
+        v => v,
+    }
+}
+
+/// Reset the tick counter, arm (k > 0) or disarm (k = 0) the simulated process death,
+/// and start (or stop) recording tick labels.
+pub fn arm(die_at: u64, record: bool) {
+    TICKS.store(0, Ordering::SeqCst);
+    DIE_AT.store(die_at, Ordering::SeqCst);
+    *LABELS.lock().unwrap_or_else(|e| e.into_inner()) = if record { Some(Vec::new()) } else { None };
+}
+
+/// Number of ticks since the last `arm`.
+pub fn ticks() -> u64 {
+    TICKS.load(Ordering::SeqCst)
+}
+
+/// Labels recorded since the last `arm(_, true)`.
+pub fn labels() -> Vec<String> {
+    LABELS
+        .lock()
+        .unwrap_or_else(|e| e.into_inner())
+        .clone()
+        .unwrap_or_default()
+}
+
+/// A storage-operation boundary.
+pub fn tick(label: &str) {
+    let n = TICKS.fetch_add(1, Ordering::SeqCst) + 1;
+    if let Some(v) = LABELS.lock().unwrap_or_else(|e| e.into_inner()).as_mut() {
+        v.push(label.to_string());
+    }
+    let k = DIE_AT.load(Ordering::SeqCst);
+    if k != 0 && n == k {
+        DIE_AT.store(0, Ordering::SeqCst);
+        panic!("verif-hooks: simulated process death at storage operation {n} ({label})");
+    }
+}
